@@ -377,7 +377,11 @@ func (t *Tree) internalDelete(subpath []string, condition func(interface{}) bool
 			// progeny leaves.
 			var allLeaves [][]string
 			for k, v := range b {
+				// The root lock keeps every other tree operation out, but a retained
+				// Leaf handle can still Update its node: take the node's own lock.
+				v.mu.Lock()
 				del, leaves := v.internalDelete(subpath, condition, f, retDeletedPaths)
+				v.mu.Unlock()
 				if retDeletedPaths {
 					leaf := []string{k}
 					for _, l := range leaves {
@@ -413,7 +417,9 @@ func (t *Tree) internalDelete(subpath []string, condition func(interface{}) bool
 	if b, ok := t.leafBranch.(branch); ok {
 		// Continue to recurse on subpath while it matches nodes in the Tree.
 		if br := b[subpath[0]]; br != nil {
+			br.mu.Lock()
 			delBr, allLeaves := br.internalDelete(subpath[1:], condition, f, retDeletedPaths)
+			br.mu.Unlock()
 			if retDeletedPaths {
 				leaf := []string{subpath[0]}
 				// Prepend branch node name to all progeny leaves of branch.
